@@ -418,31 +418,147 @@ func runC19(c *core.Ctx) {
 				}
 			})
 		}
+		// the helper(s) behind the exported power-of-two functions: whatever they call inside the package
+		var helpers []*ssa.Function
+		seenH := map[*ssa.Function]bool{}
+		for _, name := range []string{"CeilToPowerOfTwo", "FloorToPowerOfTwo"} {
+			if f := pm.Func(name); f != nil {
+				for _, g := range calleesWithin(p, f, 2) {
+					if !seenH[g] && p.PkgRel(g) == "utils/pool/internal/pmath" {
+						seenH[g] = true
+						helpers = append(helpers, g)
+					}
+				}
+			}
+		}
+		_ = fb
 		switch {
 		case usesBits:
 			c.OK("R5", "pmath/bit-fill", "", "power-of-two helpers rest on math/bits")
-		case fb == nil:
-			c.Unk("R5", "pmath/bit-fill", "", "bit-fill helper not found and math/bits not used: power-of-two implementation not recognised")
 		default:
-			c.FuncsSeen[p.QName(fb)] = true
-			shifts := map[int64]bool{}
-			branches := len(core.Ifs(fb)) > 0 || len(fb.Blocks) > 1
-			core.AllInstrs(fb, func(in ssa.Instruction) {
-				if b, ok := in.(*ssa.BinOp); ok && b.Op == token.SHR {
-					if k, isC := core.ConstInt(b.Y); isC {
-						shifts[k] = true
+			// every function with right shifts must be one of the two recognised fills
+			var fills []*ssa.Function
+			for _, g := range helpers {
+				has := false
+				core.AllInstrs(g, func(in ssa.Instruction) {
+					if b, ok := in.(*ssa.BinOp); ok && b.Op == token.SHR {
+						if _, isOr := orUser(b); isOr {
+							has = true
+						}
 					}
+				})
+				if has {
+					fills = append(fills, g)
 				}
-			})
-			var ks []int
-			for k := range shifts {
-				ks = append(ks, int(k))
 			}
-			sort.Ints(ks)
-			want := "[1 2 4 8 16 32]"
-			c.Check(!branches && fmt.Sprint(ks) == want, "R5", "pmath/bit-fill", p.Pos(fb.Pos()), "unconditional cascade n |= n>>k for k in "+want, fmt.Sprintf("the bit-fill helper is not the unconditional shift cascade %s (shifts %v, conditional=%v): some sizes are not rounded to a power of two", want, ks, branches))
+			if len(fills) == 0 {
+				c.Unk("R5", "pmath/bit-fill", "", "no bit-fill (n |= n >> k) found behind the power-of-two functions and math/bits not used: implementation not recognised")
+				break
+			}
+			good, why := true, ""
+			for _, g := range fills {
+				c.FuncsSeen[p.QName(g)] = true
+				if ok, w := bitFillShape(g); !ok {
+					good, why = false, core.FName(g)+": "+w
+				}
+			}
+			c.Check(good, "R5", "pmath/bit-fill", p.Pos(fills[0].Pos()), "unconditional fill n |= n>>k for k = 1,2,4,...,32 (cascade or doubling loop)", "the bit-fill helper is not the unconditional shift fill over 1,2,4,8,16,32 ("+why+"): some sizes are not rounded to a power of two")
 		}
 	}
+}
+
+// orUser: the shift result feeds an OR (n | n>>k).
+func orUser(sh *ssa.BinOp) (*ssa.BinOp, bool) {
+	if sh.Referrers() == nil {
+		return nil, false
+	}
+	for _, ref := range *sh.Referrers() {
+		if b, ok := ref.(*ssa.BinOp); ok && b.Op == token.OR {
+			return b, true
+		}
+	}
+	return nil, false
+}
+
+// bitFillShape: g fills the bits below the top set bit with n |= n >> k, either as the straight-line cascade
+// k = 1,2,4,8,16,32 or as a loop whose shift starts at 1, doubles, and runs at least up to 32; nothing
+// conditional besides the loop test.
+func bitFillShape(g *ssa.Function) (bool, string) {
+	shifts := map[int64]bool{}
+	var varShift *ssa.BinOp
+	core.AllInstrs(g, func(in ssa.Instruction) {
+		if b, ok := in.(*ssa.BinOp); ok && b.Op == token.SHR {
+			if k, isC := core.ConstInt(b.Y); isC {
+				shifts[k] = true
+			} else {
+				varShift = b
+			}
+		}
+	})
+	ifs := core.Ifs(g)
+	if varShift == nil {
+		var ks []int
+		for k := range shifts {
+			ks = append(ks, int(k))
+		}
+		sort.Ints(ks)
+		if len(ifs) > 0 || len(g.Blocks) > 1 {
+			return false, fmt.Sprintf("shifts %v applied conditionally", ks)
+		}
+		if fmt.Sprint(ks) != "[1 2 4 8 16 32]" {
+			return false, fmt.Sprintf("shifts %v", ks)
+		}
+		return true, ""
+	}
+	// loop form
+	phi, ok := core.Unwrap(stripConv(varShift.Y)).(*ssa.Phi)
+	if !ok || len(phi.Edges) != 2 {
+		return false, "variable shift amount is not a loop counter"
+	}
+	start, doubles := false, false
+	for _, e := range phi.Edges {
+		if k, isC := core.ConstInt(e); isC && k == 1 {
+			start = true
+		}
+		if b, ok := e.(*ssa.BinOp); ok {
+			if b.Op == token.SHL && b.X == ssa.Value(phi) {
+				if k, isC := core.ConstInt(b.Y); isC && k == 1 {
+					doubles = true
+				}
+			}
+			if b.Op == token.MUL && (b.X == ssa.Value(phi) || b.Y == ssa.Value(phi)) {
+				o := b.Y
+				if b.Y == ssa.Value(phi) {
+					o = b.X
+				}
+				if k, isC := core.ConstInt(o); isC && k == 2 {
+					doubles = true
+				}
+			}
+		}
+	}
+	if !start || !doubles {
+		return false, "loop counter does not start at 1 and double"
+	}
+	if len(ifs) != 1 {
+		return false, "conditional code besides the loop test"
+	}
+	cd := core.CondOf(ifs[0])
+	if cd.X != ssa.Value(phi) {
+		return false, "loop test is not on the shift counter"
+	}
+	k, isC := core.ConstInt(cd.Y)
+	if !isC {
+		return false, "loop bound is not a constant"
+	}
+	reaches32 := (cd.Op == token.LEQ && k >= 32) || (cd.Op == token.LSS && k > 32)
+	if !reaches32 {
+		return false, fmt.Sprintf("loop stops before the shift by 32 (bound %d)", k)
+	}
+	if !core.EdgeDominates(ifs[0].Block(), cd.True, varShift.Block()) {
+		return false, "the shift is not in the loop body"
+	}
+	return true, ""
 }
 
 func instName(fn *ssa.Function) string {
